@@ -59,7 +59,7 @@ def gen_mr_case(rng, small=True, nfiles=None):
         "cleanup": rng.random() < 0.3,
         "packed": rng.random() < 0.5,
     }
-    names = rng.choice(["padded", "padded", "reverse", "unpadded", "samename"])
+    names = rng.choice(["padded", "padded", "reverse", "unpadded", "samename", "families"])
     if nfiles >= 2 and (cfg["split_after"] or cfg["refine"] != "none") and rng.random() < 0.7:
         names = "reverse"       # rounds that re-read the inputs by global index: order given != order sorted
     return {"nf": nf, "files": files, "cfg": cfg, "names": names}
@@ -86,6 +86,11 @@ def write_inputs(case, d: Path):
             nm = f"in-{str(k - 1 - i).zfill(z)}.npy"
         elif scheme == "unpadded":
             nm = f"fps.{8 + i}.npy"
+        elif scheme == "families":
+            # several libraries sharded separately: <name>.<idx>.npy with the SAME shard indices in two
+            # families, sorted by name (lib_a.0000, lib_a.0001, lib_b.0000, ...)
+            fam, idx = divmod(i, (k + 1) // 2)
+            nm = f"lib_{'ab'[fam]}.{str(idx).zfill(4)}.npy"
         elif scheme == "prefix" and k <= len(PREFIX_NAMES):
             # one stem is a prefix of the others: sorted by NAME ("lib.npy" after "lib-extra.npy") differs from
             # sorted by stem, by suffix-less name, numerically, ...
@@ -113,7 +118,8 @@ def run_impl(case, out_dir: Path, in_dir: Path, mp_context=None, procs=1, paths=
         split_largest_after_each_midsection_round=c["split_after"],
         midsection_merge_criterion=c["mid"], final_merge_criterion=c["final"],
         mp_context=mp_context, save_tree=False, save_centroids=c["save_centroids"],
-        cleanup=c["cleanup"], verbose=False, max_tasks_per_process=max_tasks)
+        cleanup=c["cleanup"], verbose=False, max_tasks_per_process=max_tasks,
+        **({"max_fps": c["max_fps"]} if c.get("max_fps") is not None else {}))
     return paths
 
 
@@ -748,6 +754,78 @@ def suite_crash(seed, tier):
     return r
 
 
+# ------------------------------------------------------------------ suite: debug cap / used directories (direct only)
+def mr_options_violation(case, dirty_first=None):
+    """direct oracles only (no model term).
+    (1) case["cfg"]["max_fps"] set: only the first max_fps rows of every input file are clustered (the
+        indices keep the files' full ranges, so the partition clause of C05 does not apply), but the rounds
+        must still only coarsen: a group of round r re-enters round r+1 as a unit (C09).
+    (2) dirty_first given: a first run (that configuration) with cleanup off leaves its round files behind,
+        then the run proper is made in the SAME directory, again with cleanup off: partition, exact
+        centroids, hand-over (C05) and coarsening (C09) as from an empty directory."""
+    with tempfile.TemporaryDirectory(prefix="verif_mropt_") as tmp:
+        tmp = Path(tmp)
+        (tmp / "in").mkdir()
+        (tmp / "out").mkdir()
+        if dirty_first is not None:
+            (tmp / "in0").mkdir()
+            try:
+                run_impl({**dirty_first, "cfg": {**dirty_first["cfg"], "cleanup": False}}, tmp / "out", tmp / "in0")
+            except Exception:
+                return None
+        try:
+            run_impl({**case, "cfg": {**case["cfg"], "cleanup": False}}, tmp / "out", tmp / "in")
+        except Exception as e:
+            if dirty_first is not None:
+                return f"the run in a directory used before (cleanup off both times) fails: {type(e).__name__}: {e}"[:240]
+            return None
+        ents = read_dir(tmp / "out", case["nf"])
+    if case["cfg"].get("max_fps") is not None:
+        return c09_rounds_violation(ents, case["cfg"]["split_after"])
+    return c05_violation(case, ents) or c09_rounds_violation(ents, case["cfg"]["split_after"])
+
+
+def gen_mr_options(seed, n):
+    rng = random.Random(seed + 23)
+    out = []
+    for k in range(n):
+        case = gen_mr_case(rng)
+        while len(case["files"]) < 2:
+            case = gen_mr_case(rng)
+        if k % 2 == 0:
+            # debug cap below the number of clusters a merging round writes into one file
+            case["cfg"].update(rounds=rng.choice([1, 2, 3]), bin=rng.choice([2, 3, 10]),
+                               max_fps=rng.choice([3, 5, 8]), thr=rng.choice([0.65, 0.8]), refine="none",
+                               split_after=False)
+            for f in case["files"]:
+                while len(f) < 12:
+                    f.append([rng.randint(0, 1) for _ in range(case["nf"])])
+            out.append((case, None))
+        else:
+            first = gen_mr_case(rng, nfiles=len(case["files"]) + rng.choice([1, 2]))
+            first["nf"] = case["nf"]
+            first["files"] = [[[rng.randint(0, 1) for _ in range(case["nf"])] for _ in range(rng.randint(3, 9))]
+                              for _ in first["files"]]
+            first["cfg"] = {**case["cfg"], "rounds": rng.choice([1, 2])}
+            first["names"] = case.get("names", "padded")
+            out.append((case, first))
+    return out
+
+
+def suite_mr_options(seed, tier):
+    r = Result("multiround-options")
+    pairs = gen_mr_options(seed, 8 if tier == "quick" else 120)
+    for case, first in pairs:
+        v = mr_options_violation(case, first)
+        if v:
+            r.bad.append({"suite": "multiround-options", "what": v, "case": case, "dirty_first": first})
+    r.cases = len(pairs)
+    r.nontrivial = len(pairs)
+    r.stats = {"capped": sum(1 for c, f in pairs if f is None), "used_directory": sum(1 for c, f in pairs if f is not None)}
+    r.samples = [{"cfg": pairs[0][0]["cfg"]}]
+    return r
+
+
 # ------------------------------------------------------------------ suite: failures inside pool workers (C14)
 def worker_failure_violation(case, scenario, procs, ctx_name):
     """run the parallel workflow with a failure that happens INSIDE a worker process and say what is
@@ -902,7 +980,8 @@ def search_mr(which):
                                                for f in case["files"]]}
                     return {"violation": v, "big_cluster_seed": seed, "group_size": max(len(f) for f in case["files"]),
                             "case_summary": small}
-        suites = {"C05": [suite_mr_files], "C06": [suite_sched], "C14": [suite_crash, suite_worker_crash]}[which]
+        suites = {"C05": [suite_mr_files, suite_mr_options], "C06": [suite_sched], "C09": [suite_mr_files, suite_mr_options],
+                  "C14": [suite_crash, suite_worker_crash]}[which]
         # (the suites may not have run at all when the model did not build: start with this run's seed)
         for sd in (seed, seed + 1, seed + 2):
             for s in suites:
@@ -937,6 +1016,8 @@ def replay_mr(which):
         if not fi or "case" not in fi:
             return True
         case = fi["case"]
+        if "dirty_first" in fi or case["cfg"].get("max_fps") is not None:
+            return mr_options_violation(case, fi.get("dirty_first")) is None
         with tempfile.TemporaryDirectory(prefix="verif_mrr_") as tmp:
             tmp = Path(tmp)
             (tmp / "in").mkdir()
